@@ -91,6 +91,9 @@ def gen_c20(seed: int, tier: str) -> List[Dict[str, Any]]:
                     cases.append({"p": {"t": top, pos: {"t": "exc", ("context" if pos == "cause" else "cause"): {"t": t, "a": "two"}}}, "entry": entry})
     for entry in ("direct", "validate", "json"):
         cases.append({"p": {"t": "lazy", "a": "one"}, "entry": entry, "then_import": True})
+    for t in allk:
+        if t not in ("nomodule_field", "nomodule_dotted", "nomodule_builtin_name"):
+            cases.append({"p": {"t": t, "a": "one"}, "entry": "validate", "wrap": True})
     for _ in range(300 if tier == "quick" else 8000):
         def rnd(d: int) -> Dict[str, Any]:
             p: Dict[str, Any] = {"t": rng.choice(allk), "a": rng.choice(["none", "one", "two"]), "sup": rng.random() < 0.3}
